@@ -356,6 +356,7 @@ func c03() {
 		run.Require("decided:unconditional_entry_after_failed_conditional", 1)
 		run.Require("programs_over_255", 1)
 	}
+	run.RunSecondaryBuild()
 	run.Finish(run.Counter("events"), int64(len(shapes)),
 		"policies mixing unconditional and conditional entries (catalogue + PRNG; repeated arguments, same syscall in several groups, 10..30-list entries, programs past 255/1000 instructions); directed events: per list one satisfying event, per condition one failing exactly it, each replayed under other listed/unlisted numbers (leak probes), plus adversarial fills; then a path-directed phase that searches, for every branch edge not yet executed, a path to it, solves the per-word constraints and judges the resulting event too; distinct = distinct (groups, lists, conditions, program length) shapes")
 }
